@@ -5,6 +5,9 @@ import EraVerif.Model.C10Std
 namespace EraVerif.Proofs.C10Std
 open EraVerif.Model.C10
 
+theorem isPanic_ite {α : Type} (c : Prop) [Decidable c] (a b : Res α) :
+    (if c then a else b).isPanic = (if c then a.isPanic else b.isPanic) := by split <;> rfl
+
 /-- truncating division by 10^9: quotient/remainder facts in a form `omega` can use -/
 theorem tdm (n : Int) : n = 1000000000 * n.tdiv 1000000000 + n.tmod 1000000000 ∧
     -1000000000 < n.tmod 1000000000 ∧ n.tmod 1000000000 < 1000000000 ∧
@@ -141,12 +144,8 @@ theorem newLegacy_panic_iff (s n : Int) :
   · simp only [h, if_true]
     constructor
     · intro hp
-      exfalso
-      by_cases c1 : (decide (s + n.tdiv 1000000000 > 0) && decide (n.tmod 1000000000 < 0)) = true
-      · simp [c1, Res.isPanic] at hp
-      · by_cases c2 : (decide (s + n.tdiv 1000000000 < 0) && decide (n.tmod 1000000000 > 0)) = true
-        · simp [c1, c2, Res.isPanic] at hp
-        · simp [c1, c2, Res.isPanic] at hp
+      rw [isPanic_ite, isPanic_ite] at hp
+      simp [Res.isPanic] at hp
     · intro hp; cases hp
   · have h' : inI64 (s + n.tdiv 1000000000) = false := by simpa using h
     simp [h', Res.isPanic]
